@@ -112,6 +112,17 @@ class Transport:
         self.closing = True
 
 
+def _tree_floor() -> float:
+    """The floor the tree itself configures for the adaptive timeout (reach accounting only: the bound that is
+    enforced is the protocol's 0.4 s)."""
+    try:
+        import bellows.ash as ash_
+
+        return max(T_MIN, float(getattr(ash_, "T_RX_ACK_MIN", T_MIN)))
+    except Exception:  # noqa: BLE001
+        return T_MIN
+
+
 _SHIFT = [0]  # set per case (run_case): which sends get the long payloads
 
 
@@ -391,7 +402,7 @@ def check_trace(trace, max_attempts: int):
                                 f"send {idx}: attempt {len(s['att']) + 1} came {gap:.4f}s after the previous one "
                                 f"with no NAK delivered at that instant (allowed {T_MIN}..{T_MAX}s)"))
                 facts["immediate_retry_on_nak" if nak_now else "timeout_retry"] = True
-                if not nak_now and gap < T_MIN + 0.01:
+                if not nak_now and gap < _tree_floor() + 0.01:
                     facts["timeout_at_floor"] = True
             s["att"].append(t)
             s.setdefault("att_i", []).append(ev_i)
